@@ -12,7 +12,13 @@ Quantitative "up to rounding": generic error lemmas for the binary32 scalar type
 * the monotone sandwich `rne32_between`: rounding never leaves an interval whose end points are binary32 numbers;
   `add_between`, `mul_between`, … are its instances for the operations of `SF`;
 * `foldl_add_err` : the classic forward error bound for a left fold of rounded additions,
-  `|fl(a + t₁ + … + tₙ) − (a + Σ tᵢ)| ≤ ((1+u)^n − 1)·(|a| + Σ |tᵢ|)`.
+  `|fl(a + t₁ + … + tₙ) − (a + Σ tᵢ)| ≤ ((1+u)^n − 1)·(|a| + Σ |tᵢ|)`; `pow_sub_one_le`: `(1+u)^k − 1 ≤ 2·k·u` while `k·u ≤ 1/2`;
+* composition of relative errors (`relerr_mul`, `relerr_round`, `relerr_round_add`) and the conversion nanoseconds → seconds
+  `n as f32 / 1e9` (`ofInt_div_e9_err`: relative `(1+u)^2 − 1`, every integer `n`);
+* the grid: `rne32_half_ulp` (error at most half the local spacing), `rep_grid` (a binary32 number `≥ 2^k` in magnitude is a
+  multiple of `2^(k−23)`), `rep_one_sub` (`1.0 − L` is exact for `L ∈ [0.5, 1]`), and `rne32_near_same/above/below/below_min`:
+  rounding a number within `5/4` ulp (`3/2` in the same or the higher binade) of a binary32 number `c` gives `c` or one of its two
+  neighbours.
 
 Everything is proved from the definition of `rne32` (via `Rrtk/Thm/Lemmas/SoftFloat.lean`); no hypothesis about floating
 point is left.
